@@ -1090,10 +1090,8 @@ func (f *FuncCFG) NodeSites(syms ...string) []site {
 					continue
 				}
 			}
-			m := f.Mentions(n, b)
-			// the statement's own operator and direct symbols only: do not let definitions of locals leak in
-			direct := map[string]bool{}
-			f.mentions(n, b, direct, map[types.Object]bool{}, 100)
+			// the statement's own operator and direct symbols only: definitions of locals do not leak in
+			m := f.DirectMentions(n)
 			all := true
 			for _, s := range syms {
 				if !m[s] {
